@@ -96,10 +96,18 @@ def nest(scs, rnd, frac, marks=False):
     return out
 
 
-def model_check(cfgs, timeout):
-    """Impl => P on the model: EinoRun (run loop as coded) must satisfy RunRule for every scenario in the bound."""
+def model_check(cfgs, timeout, must_fail=()):
+    """Impl => P on the model: EinoRun (run loop as coded) must satisfy RunRule for every scenario in the bound.
+    must_fail: configurations of the model with a known defect switched on; TLC must find RuleHolds violated there, otherwise the
+    rule would be vacuous for that mechanism (then the check is inconclusive, never a violation)."""
     states = trans = 0
     runs = []
+    for cfg in must_fail:
+        run = vlib.tlc("EinoRun", cfg, workers=min(vlib.NCPU, 8), timeout=timeout, heap="6g", stack="256m")
+        if run.timed_out or run.error != "invariant:RuleHolds":
+            raise Inconclusive("the defective model %s was not rejected by the rule (%s)" % (cfg, run.error))
+        log("  model %s (defect switched on): rejected by the rule as expected after %d states" % (cfg, run.distinct))
+        runs.append({"cfg": cfg, "expected": "RuleHolds violated", "distinct": run.distinct})
     for cfg in cfgs:
         run = vlib.tlc("EinoRun", cfg, workers=min(vlib.NCPU, 12), timeout=timeout, heap="8g", stack="256m")
         vlib.tlc_must_pass(run, "model check " + cfg)
@@ -122,11 +130,11 @@ def nontrivial_signature(case, obs_lines):
 
 
 def run_engine_check(prop, tier, *, model_cfgs, families, decorate_kw, nontrivial, nest_frac=0.0, nest_marks=False,
-                     extra_scenarios=None, classify=None, limit=None, assumptions=(), repo=None):
+                     extra_scenarios=None, classify=None, limit=None, assumptions=(), repo=None, model_must_fail=()):
     t0 = time.time()
     rnd = random.Random(vlib.SEED * 7919 + 13)
     log("[%s] tier=%s seed=%d repo=%s" % (prop, tier, vlib.SEED, repo or vlib.REPO))
-    states, trans, model_runs = model_check(model_cfgs, timeout=1800 if tier == "thorough" else 600)
+    states, trans, model_runs = model_check(model_cfgs, timeout=1800 if tier == "thorough" else 600, must_fail=model_must_fail)
     scs, gen_stats = [], []
     for name, c, kw in families:
         fam, run = engine.gen_family(name, c, **kw)
@@ -315,7 +323,8 @@ def c05(tier, repo=None):
         """the run was interrupted at least once and resumed"""
         return _has(obs, "resume")
     fams, limit = _intr_families(tier)
-    return run_engine_check("C05", tier, model_cfgs=["MC_EinoRun_pregel2.cfg"] + (["MC_EinoRun_dag3.cfg"] if tier == "thorough" else []),
+    return run_engine_check("C05", tier, model_cfgs=["MC_EinoRun_pregel2.cfg", "MC_EinoRun_nest_before.cfg"] + (["MC_EinoRun_dag3.cfg", "MC_EinoRun_nest_after.cfg"] if tier == "thorough" else []),
+                            model_must_fail=["MC_EinoRun_nest_stale.cfg"],
                             families=fams, decorate_kw={"state_frac": 0.3}, nontrivial=nontrivial, nest_frac=0.12, nest_marks=True,
                             limit=limit, repo=repo,
                             assumptions=["the step counter restarts with every call, so cyclic graphs interrupted at every step are cut off after 12 node executions (giveup), never judged",
@@ -328,7 +337,7 @@ def c06(tier, repo=None):
         return _has(obs, "interrupt")
     fams, limit = _intr_families(tier)
     fams = fams + [("if2", consts("pregel", 2, 3, 1, 1, marks=1, fail=True, maxchoice=(3,)), {})]     # errors must not write a checkpoint
-    return run_engine_check("C06", tier, model_cfgs=["MC_EinoRun_pregel2.cfg"] + (["MC_EinoRun_dag3.cfg"] if tier == "thorough" else []),
+    return run_engine_check("C06", tier, model_cfgs=["MC_EinoRun_pregel2.cfg", "MC_EinoRun_nest_after.cfg"] + (["MC_EinoRun_dag3.cfg", "MC_EinoRun_nest_before.cfg"] if tier == "thorough" else []),
                             families=fams, decorate_kw={"noid_frac": 0.12, "state_frac": 0.3}, nontrivial=nontrivial, nest_frac=0.12,
                             nest_marks=True, limit=limit, repo=repo,
                             assumptions=["'stops before any of its successors starts' is read per the statement: only successors triggered by the after-node are constrained"])
